@@ -44,6 +44,10 @@ OWN_IDENT_PREFIXES = ("ident_", "t_filter", "t_test", "import_alias", "join(")
 EXTENSION_ONLY = {"EnvironmentAttribute", "ExtensionAttribute", "InternalName", "EvalContextModifier", "ScopedEvalContextModifier"}
 
 
+# {field!r} written inside a string literal is harmless when the field is an identifier (value of a `name` token)
+IDENTIFIER_REPR_OK = {"Block": {"node.name"}}
+
+
 def native_compile_family(w=None):
     """native oracle shared by the W3 obligations: identifiers, keyword arguments that are Python keywords, unusual
     but valid names - everything compiles (or is a TemplateSyntaxError) and the generated source is accepted by compile()"""
@@ -53,6 +57,14 @@ def native_compile_family(w=None):
             "{% macro lambda() %}{% endmacro %}{{ lambda() }}", "{% for def in x %}{{ def }}{% endfor %}", "{{ x.class }}{{ x['a b'] }}",
             "{% import 'a' as import %}", "{% from 'a' import b as from %}", "{{ x is divisibleby(import=3) }}",
             "{% call(class) f(print=1) %}{% endcall %}", "{% set ns.for = 1 %}", "{% with not_ = 1 %}{{ not_ }}{% endwith %}"]
+    for nm in ("it's.html", 'say "hi".txt', "back\\slash", "new\nline"):
+        for src in ("{{ 'yes' if flag }}", "{% from 'x' import y %}", "{% block b required %}{% endblock %}"):
+            try:
+                compile(jinja2.Environment().compile(src, name=nm, raw=True), "<t>", "exec")
+            except TemplateSyntaxError:
+                continue
+            except BaseException as ex:  # noqa
+                problems.append(f"template named {nm!r}, source {src}: {type(ex).__name__}: {ex}")
     for is_async in (False, True):
         env = jinja2.Environment(enable_async=is_async)
         for src in srcs:
@@ -76,10 +88,19 @@ def w3_pred(sc, tree, ph, txt):
         for n in ast.walk(tree):
             if isinstance(n, ast.keyword) and n.arg:
                 kw_args.add(n.arg)
+    consts = [n.value for n in ast.walk(tree) if isinstance(n, ast.Constant) and isinstance(n.value, str)] if tree is not None else None
     for name, v in ph.items():
         if not isinstance(v, tuple):
             continue
         kind, term = v[0], v[1]
+        if kind == "repr" and consts is not None:
+            # a repr() is a complete Python literal only where an expression may stand: pasted INSIDE another string
+            # literal its quotes / escapes end or alter that literal (unless the value is an identifier: no quote, no backslash)
+            inner = name.strip("'")
+            if inner not in consts and any(inner in c for c in consts):
+                if not (cls_name in IDENTIFIER_REPR_OK and str(term) in IDENTIFIER_REPR_OK[cls_name]):
+                    fails.append(f"repr() of data («{str(term)[:40]}») is pasted inside a string literal of the generated source: `{(txt or '')[:140]}`")
+            continue
         if kind in ("repr", "int"):
             continue
         t = str(term)
@@ -371,7 +392,7 @@ def w5_roundtrip(task, tier, seed):
     for i, val in enumerate(const_table()):
         nm = f"C01.emit.wellformed.W5[{i}]"
         desc = repr(val) if not (isinstance(val, int) and abs(val) > 10 ** 30) else "<int with 5001 digits>"
-        if not C.has_safe_repr(val) and not (isinstance(val, float) or (isinstance(val, int) and abs(val) < 10 ** 4000)):
+        if not C.has_safe_repr(val) and not isinstance(val, (float, int)):
             # neither a literal the lexer can produce nor a value constant folding accepts: no Const node carries it
             rs.append(Res(nm, "bounded-ok", "native", 0, f"{desc}: rejected by has_safe_repr, not a literal", "bounded"))
             continue
@@ -396,7 +417,8 @@ def w5_key(res):
 def replay_const(w):
     key = w.get("const_key")
     srcs = {"non-finite-float": ["{% set x = 1e999 %}{{ x + 1 }}", "{{ -1e999 }}", "{{ 1e999 - 1e999 }}"],
-            "int-digit-limit": ["{{ (10 ** 5000) > 1 }}", "{% set x = 10 ** 5000 %}{{ x > 1 }}"]}.get(key, [])
+            "int-digit-limit": ["{{ (10 ** 5000) > 1 }}", "{% set x = 10 ** 5000 %}{{ x > 1 }}", "{{ 0x" + "f" * 4200 + " > 1 }}",
+                                "{{ x < 0b" + "1" * 17200 + " }}"]}.get(key, [])
     idx = w.get("index")
     if not srcs and idx is not None:
         val = const_table()[idx]
@@ -457,6 +479,8 @@ def w6_key(res):
 
 def tasks():
     ts = all_visitor_tasks(PROP, "C01.emit.wellformed.W3", w3_pred, replay_fn=native_compile_family, buffers=(None,))
+    for t in ts:
+        t.finding_key = lambda res: "repr-inside-string-literal" if "pasted inside a string literal" in (res.detail or "") else "raw-template-data"
     ts.append(EmitTask(PROP, "C01.emit.wellformed.W3.signature", "jinja2.compiler:CodeGenerator.visit_Call", N.Call, signature_pred,
                        replay_fn=native_compile_family, min_paths=64, install_opts={"modular_signature": False}))
     ts.append(DefineRef())
@@ -474,6 +498,7 @@ def tasks():
     ts.append(LoopControlParse())
     ts += extra_kw_tasks()
     ts += extra_tasks()
+    ts += hunt_tasks()
     return ts
 
 
@@ -881,5 +906,205 @@ def extra_tasks():
     ts.append(t)
     t = FnTask(PROP, "C01.bounded.recursion", recursion_depth, "bounded", replay_recursion)
     t.finding_key = lambda res: f"recursion:{(res.witness or {}).get('construct')}"
+    ts.append(t)
+    return ts
+
+
+# ------------------------------------------------------------------------------------------------ W7: visit_Output (hunt C01_1)
+
+def output_tasks():
+    """the real visit_Output over a concrete child list of 0 / 1 / 2 abstract expressions (a bound on the number of children),
+    symbolic frame.require_output_check / buffer / finalize: every path's text must parse as a Python statement list
+    (an `if parent_template is None:` without a suite does not)"""
+    from contracts.c08 import configure_output
+    from pyvc.values import HList
+    ts = []
+    for n in (0, 1, 2):
+        nf = (lambda st, n=n: {"nodes": st.alloc(HList(items=[emit.make_node(st, N.Expr, f"node.nodes[{i}]", kind="expr") for i in range(n)]), initial=True)})
+        t = EmitTask(PROP, f"C01.emit.wellformed.W7.visit_Output[{n} children]", "jinja2.compiler:CodeGenerator.visit_Output", N.Output,
+                     lambda sc, tree, ph, txt: [], mode="stmts", buffers=(None, "t_buf"), node_fields=nf, configure=configure_output,
+                     gen_fields={"_finalize": None}, replay_fn=replay_empty_output, min_paths=2)
+        t.finding_key = lambda res: "empty-output-under-extends-check"
+        if n == 2:
+            t.thorough_only = True
+        ts.append(t)
+    return ts
+
+
+def replay_empty_output(w=None):
+    srcs = ["{% print %}{% extends 'base' %}", "{% if x %}{% extends 'base' %}{% endif %}{% print %}", "{% print %}", "{% for x in y %}{% print %}{% endfor %}{% extends z %}"]
+    for is_async in (False, True):
+        env = jinja2.Environment(enable_async=is_async)
+        for src in srcs:
+            try:
+                env.from_string(src)
+            except TemplateSyntaxError:
+                continue
+            except BaseException as ex:  # noqa
+                return (True, f"{src} -> {type(ex).__name__}: {str(ex)[:100]}")
+    return (False, "an empty print statement loads in every position")
+
+
+# ------------------------------------------------------------------------------------------------ NFKC-equivalent names (hunt C01_3/4/6)
+
+FW = {"c": "ｃ", "d": "ｄ", "l": "ｌ", "b": "ｂ", "k": "ｋ", "v": "ｖ", "i": "ｉ"}
+
+NFKC_FAMILY = {
+    # class -> list of (environment factory name, source)
+    "signature-keyword": [
+        ("default", "{{ f(__%sebug__=1) }}" % FW["d"]), ("default", "{{ x is divisibleby(__%sebug__=1) }}" % FW["d"]),
+        ("default", "{%% call f(%saller=1) %%}x{%% endcall %%}" % FW["c"]), ("default", "{%% for x in y %%}{{ f(_%soop_vars=1) }}{%% endfor %%}" % FW["l"]),
+        ("default", "{%% block b %%}{{ f(_%slock_vars=1) }}{%% endblock %%}" % FW["b"]), ("default", "{{ f(%sf=1) }}" % FW["i"]),
+        ("default", "{{ f(%slass=1, x=2) }}" % FW["c"]), ("default", "{{ f(é=1, café=2) }}"),
+    ],
+    "i18n-keyword": [
+        ("i18n", "{% trans ﬁ=1, fi=2 %}{{ ﬁ }}{{ fi }}{% endtrans %}"), ("i18n", "{% trans %}{{ ﬁ }} and {{ fi }}{% endtrans %}"),
+        ("i18n", "{% trans fi=a %}one {{ fi }}{% pluralize %}many {{ ﬁ }}{% endtrans %}"), ("i18n", "{% trans a=1, b=2 %}{{ a }}{{ b }}{% endtrans %}"),
+    ],
+    "macro-special-param": [
+        ("default", "{%% macro m(%saller) %%}{{ caller() }}{%% endmacro %%}" % FW["c"]), ("default", "{%% macro m(%swargs) %%}{{ kwargs }}{%% endmacro %%}" % FW["k"]),
+        ("default", "{%% macro m(a, %sarargs=1) %%}{{ varargs }}{%% endmacro %%}" % FW["v"]), ("default", "{%% call(%saller) f() %%}{{ caller }}{%% endcall %%}" % FW["c"]),
+        ("default", "{% macro m(caller) %}{{ caller() }}{% endmacro %}"),
+    ],
+}
+
+
+def _nfkc_env(kind):
+    if kind == "i18n":
+        env = jinja2.Environment(extensions=["jinja2.ext.i18n"])
+        env.install_null_translations(newstyle=True)
+        return env
+    return jinja2.Environment()
+
+
+def _nfkc_failures(cls):
+    bad = []
+    for kind, src in NFKC_FAMILY[cls]:
+        try:
+            _nfkc_env(kind).from_string(src)
+        except TemplateSyntaxError:
+            continue
+        except BaseException as ex:  # noqa
+            bad.append((src, f"{type(ex).__name__}: {str(ex)[:80]}"))
+    return bad
+
+
+def nfkc_names_table(task, tier, seed):
+    """table: names that are different strings but equal as Python identifiers (NFKC), at the places where the generator
+    writes a template name as a Python identifier next to its own names: keyword arguments (caller= / _loop_vars= /
+    _block_vars=, the keyword test incl. __debug__), keywords built by the i18n extension, implicit macro parameters"""
+    rs = []
+    for cls in NFKC_FAMILY:
+        bad = _nfkc_failures(cls)
+        if bad:
+            rs.append(Res("C01.emit.wellformed.W2.nfkc_names", "refuted", "table", 0, f"{cls}: {bad[0][0]} -> {bad[0][1]} ({len(bad)} of {len(NFKC_FAMILY[cls])} sources)",
+                          "table", {"class": cls, "source": bad[0][0]}))
+        else:
+            rs.append(Res(f"C01.emit.wellformed.W2.nfkc_names.{cls}", "discharged", "table", 0, f"{len(NFKC_FAMILY[cls])} sources load or raise TemplateSyntaxError", "table"))
+    return rs
+
+
+def replay_nfkc(w):
+    cls = w.get("class")
+    if cls not in NFKC_FAMILY:
+        return (False, "unknown class")
+    bad = _nfkc_failures(cls)
+    return (bool(bad), f"{bad[0][0]} -> {bad[0][1]}" if bad else f"the {cls} family loads")
+
+
+# ------------------------------------------------------------------------------------------------ configurations (hunt C01_7)
+
+DELIMITER_PARAMS = ("block_start_string", "block_end_string", "variable_start_string", "variable_end_string", "comment_start_string",
+                    "comment_end_string", "line_statement_prefix", "line_comment_prefix")
+
+
+def _load_with_limit(kwargs, src="hello {{ x }}\n", limit=8):
+    import json
+    import subprocess
+    code = ("import sys, json, jinja2\n"
+            "kw, src = json.loads(sys.stdin.read())\n"
+            "try:\n"
+            "    jinja2.Environment(**kw).from_string(src)\n"
+            "    print('ok')\n"
+            "except jinja2.TemplateSyntaxError:\n"
+            "    print('TSE')\n"
+            "except BaseException as ex:\n"
+            "    print('EXC', type(ex).__name__, ex)\n")
+    try:
+        p = subprocess.run([sys.executable, "-c", code], input=json.dumps([kwargs, src]), capture_output=True, text=True, timeout=limit)
+    except subprocess.TimeoutExpired:
+        return f"did not return within {limit} s"
+    out = (p.stdout or "").strip()
+    if out.startswith("EXC") and "ValueError" not in out and "AssertionError" not in out:
+        return out
+    return None
+
+
+def empty_delimiter_table(task, tier, seed):
+    """regex fact per configuration the Environment constructor accepts: with an EMPTY delimiter / prefix string every
+    rule that pushes a lexer state must still consume a character (else the tokeniter variant (len - pos, depth) need not
+    decrease: C01.tokeniter.terminates assumes the four regular rule tables)"""
+    from contracts import c01_lexer as CL
+    import jinja2.lexer as L
+    rs = []
+    for param in DELIMITER_PARAMS:
+        nm = f"C01.regex.empty_delimiter.{param}"
+        try:
+            env = jinja2.Environment(**{param: ""})
+        except (ValueError, AssertionError) as ex:
+            rs.append(Res(nm, "discharged", "table", 0, f"rejected when the Environment is built: {type(ex).__name__}", "regex"))
+            continue
+        try:
+            lx = L.Lexer(env)
+        except Exception as ex:  # noqa
+            rs.append(Res(nm, "discharged", "table", 0, f"no lexer can be built: {type(ex).__name__}", "regex"))
+            continue
+        bad = []
+        root = lx.rules["root"][0]
+        tree = CL.sre_parse.parse(root.pattern.pattern, root.pattern.flags)
+        widths = {}
+
+        def groups(items):
+            for op, av in items:
+                nm_ = str(op)
+                if nm_ == "SUBPATTERN":
+                    if av[0] is not None:
+                        widths[av[0]] = sum(CL._item_minwidth(o, a) for o, a in av[3])
+                    groups(list(av[3]))
+                elif nm_ == "BRANCH":
+                    for alt in av[1]:
+                        groups(list(alt))
+
+        groups(list(tree))
+        for gname, gidx in root.pattern.groupindex.items():
+            if widths.get(gidx, 1) >= 1 or gname not in lx.rules:
+                continue
+            # a zero-width push: a hang needs a zero-width way back to root on which the parser never sees a token
+            for i, rule in enumerate(lx.rules[gname]):
+                toks = rule.tokens if isinstance(rule.tokens, tuple) else (rule.tokens,)
+                silent = CL.wrap_visible(gname) is None and all(isinstance(t, str) and CL.wrap_visible(t) is None for t in toks)
+                if rule.command == "#pop" and CL.facts(rule.pattern).minw == 0 and silent:
+                    bad.append(f"the root rule pushes {gname!r} without consuming a character, {gname}[{i}] pops without consuming one, and no token of the cycle reaches the parser")
+        if bad:
+            rs.append(Res("C01.regex.empty_delimiter", "refuted", "table", 0, f"Environment({param}='') is accepted but {bad[0]}", "regex",
+                          {"param": param}))
+        else:
+            rs.append(Res(nm, "discharged", "table", 0, "every pushing rule consumes a character", "regex"))
+    return rs
+
+
+def replay_empty_delimiter(w):
+    param = w.get("param", "line_comment_prefix")
+    r = _load_with_limit({param: ""})
+    return (r is not None, f"Environment({param}='').from_string('hello {{{{ x }}}}') {r}" if r else f"Environment({param}='') loads templates or raises TemplateSyntaxError")
+
+
+def hunt_tasks():
+    ts = output_tasks()
+    t = FnTask(PROP, "C01.emit.wellformed.W2.nfkc_names", nfkc_names_table, "table", replay_nfkc)
+    t.finding_key = lambda res: f"nfkc:{(res.witness or {}).get('class')}"
+    ts.append(t)
+    t = FnTask(PROP, "C01.regex.empty_delimiter", empty_delimiter_table, "regex", replay_empty_delimiter)
+    t.finding_key = lambda res: f"empty-delimiter:{(res.witness or {}).get('param')}"
     ts.append(t)
     return ts
